@@ -539,7 +539,10 @@ pub fn td_history(ctx: &mut Ctx, n: u64) {
                 4 => ctx.op("td.min 1".into()),
                 5 => ctx.op("td.max 1".into()),
                 6 => ctx.op(format!("td.quantile 1 {}", fx(ctx.rng.clone().f01()))),
-                _ => ctx.op(format!("td.cdf 1 {}", fx(*ctx.rng.clone().pick(&inserted)))),
+                _ => {
+                    let x = if inserted.is_empty() { 0.0 } else { *ctx.rng.clone().pick(&inserted) };
+                    ctx.op(format!("td.cdf 1 {}", fx(x)))
+                }
             };
         }
     }
